@@ -591,3 +591,68 @@ func compressedLen(raw string) int {
 	gz.Close()
 	return base64.StdEncoding.EncodedLen(b.Len())
 }
+
+// configGate (C09, C19, C01, C15): the statement of the Lean theorem `Oidc.CodeConfig.Validate_none` run against the real
+// `Config.Validate`: a configuration it accepts has a session key of at least 32 bytes, a rate limit of at least 10, excluded
+// prefixes that begin with "/" and contain neither ".." nor "*", a callback path beginning with "/", an https provider URL and a
+// post-logout target that is empty, "/", an https URL or a path.  One field at a time is moved across its boundary.
+func configGate() {
+	secure := func(s string) bool {
+		u, err := url.Parse(s)
+		return err == nil && u.Scheme == "https" && u.Host != ""
+	}
+	base := func() *oidc.Config {
+		c := baseConfig(newProvider(keys()["p256a"]))
+		c.LogLevel = ""
+		c.RateLimit = 100
+		return c
+	}
+	if err := base().Validate(); err != nil {
+		T.stat("config.base-rejected")
+		return
+	}
+	type kase struct {
+		prop, what string
+		mod        func(*oidc.Config)
+		valid      bool
+	}
+	var ks []kase
+	for _, n := range []int{0, 1, 8, 16, 24, 31, 32, 33, 64, 200} {
+		n := n
+		ks = append(ks, kase{"C09", fmt.Sprintf("session key of %d bytes", n), func(c *oidc.Config) { c.SessionEncryptionKey = strings.Repeat("k", n) }, n >= 32})
+	}
+	for _, n := range []int{-1000, -1, 0, 1, 5, 9, 10, 11, 500, 100000} {
+		n := n
+		ks = append(ks, kase{"C19", fmt.Sprintf("rate limit %d", n), func(c *oidc.Config) { c.RateLimit = n }, n >= 10})
+	}
+	for _, u := range []string{"/pub", "/", "/a/b", "pub", "", "a/b", "/a/../b", "/..", "/a*", "/*", "*", "/a/./b", "/a.b"} {
+		u := u
+		ok := strings.HasPrefix(u, "/") && !strings.Contains(u, "..") && !strings.Contains(u, "*")
+		ks = append(ks, kase{"C01", fmt.Sprintf("excluded URL %q", u), func(c *oidc.Config) { c.ExcludedURLs = []string{"/static", u} }, ok})
+	}
+	for _, u := range []string{"/cb", "/", "cb", "", "https://app.test/cb", "//cb"} {
+		u := u
+		ks = append(ks, kase{"C15", fmt.Sprintf("callback URL %q", u), func(c *oidc.Config) { c.CallbackURL = u }, strings.HasPrefix(u, "/")})
+	}
+	for _, u := range []string{"", "/", "/bye", "https://app.test/bye", "http://app.test/bye", "javascript:alert(1)", "bye", "https://", "//evil.test", "ftp://x.test/"} {
+		u := u
+		ok := u == "" || u == "/" || secure(u) || strings.HasPrefix(u, "/")
+		ks = append(ks, kase{"C15", fmt.Sprintf("post-logout target %q", u), func(c *oidc.Config) { c.PostLogoutRedirectURI = u }, ok})
+	}
+	for _, u := range []string{issuerURL, "https://idp.test/realms/a", "http://idp.test", "", "https://", "idp.test", "ftp://idp.test", "https:/idp.test"} {
+		u := u
+		ks = append(ks, kase{"C01", fmt.Sprintf("provider URL %q", u), func(c *oidc.Config) { c.ProviderURL = u }, u != "" && secure(u)})
+	}
+	for _, k := range ks {
+		c := base()
+		k.mod(c)
+		err := c.Validate()
+		T.stat("config.cases")
+		if err == nil && !k.valid {
+			T.oracle(k.prop, "Config.Validate accepts a configuration the deployment assumptions exclude: "+strings.SplitN(k.what, " ", 3)[0]+" "+strings.SplitN(k.what, " ", 3)[1], M{"case": k.what}, M{"family": "config", "case": k.what})
+		}
+		if err != nil && k.valid {
+			T.stat("config.valid-rejected") // (not a property violation: recorded so that a reference that is too lax shows)
+		}
+	}
+}
